@@ -33,7 +33,7 @@ def applyCommandsBody (b : Backend) : Sess :=
   op "getLogFH" [".change"] ;;
   .ite .never "err != nil" (.ret .keep ["err"]) .skip ;;
   op "HasChanges" ;;
-  .ite (.not .hasChanges) "!s.HasChanges()" (.ret .nil ["nil"]) .skip ;;
+  .ite (.not .hasChanges) "¬$r.HasChanges()" (.ret .nil ["nil"]) .skip ;;
   .call "ApplyCommands" ["_"] b.applyBody ;;
   .ret .keep ["_"]
 def applyCommands (b : Backend) : Sess := .call "applyCommands" [] (applyCommandsBody b)
@@ -42,7 +42,7 @@ def approveBody (b : Backend) : Sess :=
   compareDevice b ;;
   .ite .err "err != nil" (.ret .keep ["err"]) .skip ;;
   op "GetErrUnmanaged" ;;
-  .ite .unmanaged "l != nil" (.ret .err ["_"]) .skip ;;
+  .ite .unmanaged "$GetErrUnmanaged != nil" (.ret .err ["_"]) .skip ;;
   applyCommands b ;;
   .ret .keep ["_"]
 
@@ -56,7 +56,7 @@ def compareBody (b : Backend) : Sess :=
   .scope "loop" (.when .unmanaged (.warn ["%v", "_"])) ;;
   .call "showCompareInfo" [] showCompareInfoBody ;;
   op "HasChanges" ;;
-  .ite .hasChanges "s.logFname != \"\" && s.HasChanges()"
+  .ite .hasChanges "$r.logFname != \"\" && $r.HasChanges()"
     (op "getLogFH" [".cmp"] ;; .ite .never "err != nil" (.ret .keep ["err"]) .skip) .skip ;;
   .ret .nil ["nil"]
 
@@ -64,7 +64,7 @@ def approveOrCompareBody (b : Backend) : Sess :=
   op "HandleAbort" ;; (.scope "func" (
     op "SetStderrLog" ["_"] ;;
     op "getRealDevice" ["_"] ;;
-    .ite .isCompare "isCompare"
+    .ite .isCompare "$p1"
       (.call "compare" ["_"] (compareBody b))
       (.call "approve" ["_"] (approveBody b)) ;;
     .call "CloseConnection" [] b.closeConnectionBody ;;
@@ -75,7 +75,7 @@ def approveOrCompareBody (b : Backend) : Sess :=
 /-- `errlog.HandleAbort`: a bailout panic becomes exit code 1. -/
 def handleAbortSkel : Sess :=
   .defer (op "recover" ;;
-          .ite .never "e != nil" (.ite .never "!ok" (op "panic" ["_"]) .skip) .skip)
+          .ite .never "$recover != nil" (.ite .never "¬$assert.2" (op "panic" ["_"]) .skip) .skip)
     (.ret .none ["_"])
 
 def abortSkel : Sess := op "PrintWithMarker" ["ERROR>>> ", "_", "_"] ;; op "panic" ["_"]
@@ -126,17 +126,17 @@ def doApprove (isCompare : Bool) (prev : Status) (policy : String) (now : Nat) (
 /-- Skeleton of `doapprove.Main` (only the call to `ApproveOrCompare` has session behaviour;
 the rest is the pure function `doApprove`). -/
 def doApproveMainSkel (b : Backend) : Sess :=
-  .ite .never "err != nil" (.ite .never "err == pflag.ErrHelp" (.ret .none ["1"]) .skip ;; .ret .none ["1"]) .skip ;;
-  .ite .never "len(args) != 2" (.ret .none ["1"]) .skip ;;
+  .ite .never "err != nil" (.ite .never "¬err != pflag.ErrHelp" (.ret .none ["1"]) .skip ;; .ret .none ["1"]) .skip ;;
+  .ite .never "len($Args) != 2" (.ret .none ["1"]) .skip ;;
   op "LoadConfig" ;;
   .ite .never "err != nil" (op "abort" ["%v", "err"] ;; .ret .none ["_"]) .skip ;;
   op "EvalSymlinks" ["_"] ;;
   .ite .never "err != nil" (op "abort" ["Can't get 'current' policy directory: %v", "err"] ;; .ret .none ["_"]) .skip ;;
   op "fileExists" ["_"] ;; op "fileExists" ["_"] ;;
-  .ite .never "!(fileExists(codeFile) || fileExists(code6File))" (op "abort" ["unknown device %q", "_"] ;; .ret .none ["_"]) .skip ;;
-  .ite .isCompare "action == \"compare\"" .skip (.ite (.not .never) "action == \"approve\"" .skip (.ret .none ["1"])) ;;
+  .ite .never "¬fileExists($Join) || fileExists(path.Join($EvalSymlinks.1, \"code/ipv6\", $index))" (op "abort" ["unknown device %q", "_"] ;; .ret .none ["_"]) .skip ;;
+  .ite .isCompare "¬$index != \"compare\"" .skip (.ite (.not .never) "¬$index != \"approve\"" .skip (.ret .none ["1"])) ;;
   op "SetLock" ["_", "_"] ;;
-  .ite (.not .never) "lockFH != nil" (.scope "defer" (op "Close")) .skip ;;
+  .ite (.not .never) "$SetLock.1 != nil" (.scope "defer" (op "Close")) .skip ;;
   .ite .never "err != nil" (op "abort" ["%v", "err"] ;; .ret .none ["_"]) .skip ;;
   op "openHistoryLog" ["_", "_"] ;;
   .ite .never "err != nil" (op "abort" ["can't %v", "err"] ;; .ret .none ["_"]) .skip ;;
@@ -146,19 +146,19 @@ def doApproveMainSkel (b : Backend) : Sess :=
   op "ReadFile" ["_"] ;;
   .ite .never "err != nil" (op "abort" ["can't %v", "err"] ;; .ret .none ["_"]) .skip ;;
   .when .never (.scope "loop" (
-    .ite .never "strings.HasPrefix(line, \"ERROR>>>\")" .skip
-      (.ite .never "strings.HasPrefix(line, \"WARNING>>>\")" .skip
-        (.ite .never "strings.HasPrefix(line, \"comp: ***\")" .skip .cont)) ;;
+    .ite .never "strings.HasPrefix($range.2, \"ERROR>>>\")" .skip
+      (.ite .never "strings.HasPrefix($range.2, \"WARNING>>>\")" .skip
+        (.ite .never "strings.HasPrefix($range.2, \"comp: ***\")" .skip .cont)) ;;
     op "logHistory" ["_", "RES:", "_"])) ;;
-  .ite .isCompare "isCompare" (op "SetCompare" ["_", "_", "_", "_"]) (op "SetApprove" ["_", "_", "_", "_"]) ;;
+  .ite .isCompare "$expr" (op "SetCompare" ["_", "_", "_", "_"]) (op "SetApprove" ["_", "_", "_", "_"]) ;;
   op "logHistory" ["_", "END:", "_"] ;;
-  .ite .never "failed" (.ret .none ["1"]) (.ret .none ["0"])
+  .ite .never "$var" (.ret .none ["1"]) (.ret .none ["0"])
 
 def setApproveSkel : Sess := op "Read" ["_", "_"] ;; op "write" ["_", "_", "_"]
 def setCompareSkel : Sess :=
   op "Read" ["_", "_"] ;;
-  .ite .never "!changed" .skip
-    (.ite .never "v.Compare.Result != \"DIFF\" || v.Compare.Time < v.Approve.Time" .skip (.ret .none [])) ;;
+  .ite .never "¬$p4" .skip
+    (.ite .never "$Read.Compare.Result != \"DIFF\" || $Read.Compare.Time < $Read.Approve.Time" .skip (.ret .none [])) ;;
   op "write" ["_", "_", "_"]
 
 end NA.Apply
